@@ -253,6 +253,12 @@ class TDS(BaseRoutine):
         # if `dae.n == 1`, `calc_h_first` depends on new `dae.gy`
         self.calc_h()
 
+        # when replaying from CSV, `calc_h` has just advanced the row pointer, but the first step
+        # (at the initial time) replays the first row; otherwise the second row is stored with the
+        # initial time stamp and its own time stamp is dropped
+        if self.data_csv is not None:
+            self.k_csv = 0
+
         # allocate for internal variables
         self.x0 = np.zeros_like(system.dae.x)
         self.y0 = np.zeros_like(system.dae.y)
